@@ -4,16 +4,17 @@
 use crate::Config;
 
 #[derive(Clone, Copy, Debug, PartialEq)]
-enum Op { InsA, InsB, DelA, DelB }
-const OPS: [Op; 4] = [Op::InsA, Op::InsB, Op::DelA, Op::DelB];
+enum Op { InsA, InsB, DelA, DelB, Save, Compact, Restart }
+const OPS: [Op; 7] = [Op::InsA, Op::InsB, Op::DelA, Op::DelB, Op::Save, Op::Compact, Op::Restart];
 
 fn cfg(dir: std::path::PathBuf) -> Config {
     let mut c = Config::default();
     c.storage.data_dir = dir;
     c
 }
-/// -> (served before restart, served after restart)
-fn run_history(h: &[Op]) -> (Vec<(i32, i32)>, Vec<(i32, i32)>) {
+/// -> (served before the final restart, served after it); `final_save`: save before the final restart or rely
+/// on the write-ahead log alone.  Save / Compact / Restart may also occur inside the history.
+fn run_history_with(h: &[Op], final_save: bool) -> (Vec<(i32, i32)>, Vec<(i32, i32)>) {
     let temp = tempfile::TempDir::new().unwrap();
     let q = "result(X,Y) <- edge(X,Y)";
     let before = {
@@ -26,11 +27,18 @@ fn run_history(h: &[Op]) -> (Vec<(i32, i32)>, Vec<(i32, i32)>) {
                 Op::InsB => { s.insert("edge", vec![(2, 2)]).unwrap(); }
                 Op::DelA => { s.delete("edge", vec![(1, 1)]).unwrap(); }
                 Op::DelB => { s.delete("edge", vec![(2, 2)]).unwrap(); }
+                Op::Save => { s.save_knowledge_graph("kg").unwrap(); }
+                Op::Compact => { s.compact_all().unwrap(); }
+                Op::Restart => {
+                    drop(s);
+                    s = StorageEngine::new(cfg(temp.path().to_path_buf())).unwrap();
+                    s.use_knowledge_graph("kg").unwrap();
+                }
             }
         }
         let mut live = s.execute_query(q).unwrap_or_default();
         live.sort_unstable();
-        s.save_knowledge_graph("kg").unwrap();
+        if final_save { s.save_knowledge_graph("kg").unwrap(); }
         live
     };
     let after = {
@@ -42,6 +50,7 @@ fn run_history(h: &[Op]) -> (Vec<(i32, i32)>, Vec<(i32, i32)>) {
     };
     (before, after)
 }
+fn run_history(h: &[Op]) -> (Vec<(i32, i32)>, Vec<(i32, i32)>) { run_history_with(h, true) }
 /// a history is "clean" if no insert targets a tuple that is present and no delete targets an absent one
 fn is_clean(h: &[Op]) -> bool {
     let (mut a, mut b) = (false, false);
@@ -51,6 +60,7 @@ fn is_clean(h: &[Op]) -> bool {
             Op::InsB => { if b { return false; } b = true; }
             Op::DelA => { if !a { return false; } a = false; }
             Op::DelB => { if !b { return false; } b = false; }
+            Op::Save | Op::Compact | Op::Restart => {}
         }
     }
     true
